@@ -48,6 +48,44 @@ CLAUSES = [
     "rejects-valid:* | ratios <= 0 (incl. -0.0), sums >= 1 with test, sums != 1 without test (0.7+0.3, 0.29+0.71, ...)",
 ]
 
+# Boundaries of every dimension in QUANTIFIED OVER; each is hit DELIBERATELY in every run by boundary_cases() (tag "b"),
+# counted in stats()["boundaries"] and required by sanity().
+BOUNDARIES = [
+    "dataset length: 0, 1, 2 rows and the maximum 12 | b=int-edges/list-edges/... on n in {0,1,2,5}, max-size",
+    "int index: 0, -1, n-1, -n (last valid), n and -n-1 (first invalid) | int-edges",
+    "list / tensor index: empty, one element, all rows, all reversed, the same row twice, [-n, n-1], first invalid n / "
+    "-n-1; int32 and int64 tensors | list-edges, tensor-edges",
+    "slice: start == stop, stop == n / n+1 / n-1, start == -n / -n-1, step == n-1 / n / n+1, start > stop | slice-edges",
+    "range: empty, range(n), range(n+1) (one past), reversed full, step == n | range-edges",
+    "bool mask: all False, all True, exactly one True at the first / last position, length n-1 / n+1 | mask-edges",
+    "fractional bound: f*n exactly on a tie (.5: 0.5*1, 0.5*3, 0.5*5, 0.25*2, 0.75*2 - half-even both ways), one ulp "
+    "below / above the tie, f*n an exact integer, f == 0.0 / 1.0, f < 0, f > 1, both cuts equal, start cut > stop cut "
+    "| float-ties (every n in 0..6)",
+    "an earlier EMPTY result, then every operation on it | empty-then-ops",
+    "shuffle of 0 / 1 / 2 rows; the same parent shuffled twice; a shuffle of a shuffle | shuffle-small",
+    "split assignment: all rows in one split (each of 0/1/2), exactly one row per split, the split column sorted "
+    "ascending / descending, the wanted value only at the first / only at the last row; split lookup on a split result "
+    "(train of train = all, val of train = empty) | split-shapes",
+    "the same row repeated in a subset, then split lookups | dup-rows-then-split",
+    "index labels: positions shifted by exactly one (1..n), reversed positions, all labels equal, labels that are column "
+    "names, label == n, all negative | label-edges",
+    "the same object used twice: materialize twice, split() twice, the same get_split twice, the same col_select twice "
+    "| repeat-same-op",
+    "illegal orders on 0- and 1-row datasets, every gated entry point | gates-on-small",
+    "generator length 0 / 1 / 2 | gen-n-small",
+    "ratio sum exactly 1.0 in double (0.6+0.4, 0.7+0.3, 1.0+5e-324) with and without test split; one ulp below / above "
+    "| gen-sum-one, gen-sum-ulp",
+    "n*ratio an exact integer, one rounding below it (100*0.29), above it (3*0.1) | gen-product-edge",
+    "floor(n*tr)+floor(n*vr) == n although tr+vr < 1 (empty test block) | gen-empty-test-block",
+    "smallest positive ratio 5e-324, largest ratio below 1, 0.0 / -0.0 / -5e-324 | gen-ratio-extremes",
+    "seed 0 and 2**32-1; the same point twice | gen-seed-edges",
+]
+REQUIRED_BOUNDARIES = ["int-edges", "list-edges", "tensor-edges", "slice-edges", "range-edges", "mask-edges",
+                       "float-ties", "empty-then-ops", "shuffle-small", "split-shapes", "dup-rows-then-split",
+                       "label-edges", "repeat-same-op", "gates-on-small", "max-size", "gen-n-small", "gen-sum-one",
+                       "gen-sum-ulp", "gen-product-edge", "gen-empty-test-block", "gen-ratio-extremes",
+                       "gen-seed-edges"]
+
 PROP = "C09"
 HEADER = ("Require Import PF.Lib.PySlice PF.Lib.FloatInt PF.Model.Dataset PF.Model.Split "
           "PF.Model.DatasetRun PF.Model.DatasetHeap.")
@@ -447,12 +485,160 @@ def gen_split_grid(rng):
     return out
 
 
+def boundary_cases():
+    """The deliberate boundary stream (see BOUNDARIES): deterministic, part of every run."""
+    out = []
+
+    def H(b, labels, splits, steps, target=False, pre=(), **kw):
+        prog = list(pre) + [{"o": "mat", "p": 0, "form": "plain"}] + steps
+        out.append(dict({"k": "hist", "b": b, "lkind": "boundary", "labels": list(labels), "splits": list(splits),
+                         "target": target, "prog": prog}, **kw))
+
+    def sel(idx, p=0, via="getitem"):
+        return {"o": "sel", "p": p, "via": via, "idx": idx}
+
+    def I(i):
+        return {"t": "int", "i": i}
+
+    def L(l, t="list", **kw):
+        return dict({"t": t, "l": list(l)}, **kw)
+
+    def S(a, b, st=None):
+        return {"t": "slice", "a": a, "b": b, "s": st}
+
+    def Rg(a, b, st):
+        return {"t": "range", "a": a, "b": b, "s": st}
+
+    def F(a, b, p=0, st=None, via="getitem"):
+        return {"o": "fslice", "p": p, "via": via, "s": st,
+                "a": None if a is None else ["f", fhex(a)], "b": None if b is None else ["f", fhex(b)]}
+
+    for n in (0, 1, 2, 5):
+        labels = [i + 1 for i in range(n)]           # positions shifted by exactly one
+        splits = [i % 3 for i in range(n)]
+        H("int-edges", labels, splits, [sel(I(i), via=v) for i in (0, -1, n - 1, -n, n, -n - 1)
+                                        for v in ("getitem", "index_select")][:12])
+        full = list(range(n))
+        H("list-edges", labels, splits,
+          [sel(L(l)) for l in ([], full[:1], full[-1:], full, full[::-1], [0, 0] if n else [], [-n, n - 1] if n else [],
+                               [n], [-n - 1], full + full)])
+        H("tensor-edges", labels, splits,
+          [sel(L(l, "tensor", **d), via="index_select") for l in ([], full, full[::-1], [0, 0] if n else [], [-1] if n else [], [n])
+           for d in ({}, {"dt": "int32"})])
+        H("slice-edges", labels, splits,
+          [sel(S(*x)) for x in ((0, 0), (n, n), (0, n), (0, n + 1), (0, n - 1), (n - 1, n), (-n, None), (-n - 1, None),
+                                (None, -n), (1, 0), (None, None, max(n, 1)), (None, None, n + 1),
+                                (None, None, max(n - 1, 1)), (None, None, 0), (None, None, -1))])
+        H("range-edges", labels, splits,
+          [sel(Rg(*x)) for x in ((0, 0, 1), (0, n, 1), (0, n + 1, 1), (n - 1, -1, -1), (max(n - 1, 0), n, 1),
+                                 (0, n, max(n, 1)), (n, 0, -1))])
+        H("mask-edges", labels, splits,
+          [sel({"t": "mask", "m": m}, via="index_select") for m in
+           ([False] * n, [True] * n, [True] + [False] * (n - 1) if n else [], [False] * (n - 1) + [True] if n else [],
+            [True] * max(n - 1, 0), [True] * (n + 1))])
+    half_dn, half_up = math.nextafter(0.5, 0.0), math.nextafter(0.5, 1.0)
+    for n in range(0, 7):
+        labels = list(range(n))[::-1]
+        steps = []
+        for f in (0.5, 0.25, 0.75, half_dn, half_up, 0.0, 1.0, -0.5, 1.5, 1 / 3):
+            steps.append(F(None, f))
+            steps.append(F(f, None, via="index_select"))
+        steps += [F(0.5, 0.5), F(0.75, 0.25), F(0.25, 0.75, st=2), F(0.0, 1.0)]
+        H("float-ties", labels, [i % 3 for i in range(n)], steps)
+    H("empty-then-ops", [3, 4, 5], [0, 1, 2],
+      [sel(L([])), {"o": "shuffle", "p": 1, "ret": True, "form": "kw_true", "tseed": 1}, {"o": "split", "p": 1},
+       F(None, 0.5, p=1), sel(L([]), p=1), sel(I(0), p=1), sel({"t": "mask", "m": []}, p=1), {"o": "read_tf", "p": 1},
+       sel(S(None, None), p=1), {"o": "get_split", "p": 3, "name": "train"}, {"o": "shuffle", "p": 2, "ret": False,
+                                                                           "form": "default", "tseed": 2}])
+    for n in (0, 1, 2):
+        H("shuffle-small", [i + 1 for i in range(n)], [i % 3 for i in range(n)],
+          [{"o": "shuffle", "p": 0, "ret": True, "form": "kw_true", "tseed": 1},
+           {"o": "shuffle", "p": 0, "ret": True, "form": "pos_true", "tseed": 2},
+           {"o": "shuffle", "p": 1, "ret": False, "form": "default", "tseed": 3},
+           {"o": "shuffle", "p": 3, "ret": True, "form": "kw_true", "tseed": 1}, {"o": "split", "p": 4}])
+    for splits in ([0] * 4, [1] * 4, [2] * 4, [0, 1, 2], [2, 1, 0], [0, 0, 1, 1, 2, 2], [2, 2, 1, 1, 0, 0],
+                   [1, 0, 0, 0], [0, 0, 0, 1], [2, 0, 0, 2], [1], [2], []):
+        n = len(splits)
+        H("split-shapes", [n - i for i in range(n)], splits,
+          [{"o": "split", "p": 0}, {"o": "get_split", "p": 1, "name": "train"}, {"o": "get_split", "p": 1, "name": "val"},
+           {"o": "split", "p": 3}, {"o": "get_split", "p": 0, "name": "test", "kw": True},
+           {"o": "shuffle", "p": 0, "ret": True, "form": "kw_true", "tseed": 5}, {"o": "split", "p": 10}],
+          sdtype=["int64", "uint8", "float64", "category"][n % 4])
+    H("dup-rows-then-split", [5, 6, 7], [0, 1, 0],
+      [sel(L([2, 2, 0, 0, 1, 2])), {"o": "split", "p": 1}, sel(L([0, 0], "tensor"), p=2),
+       {"o": "get_split", "p": 5, "name": "train"}])
+    for labels in ([1, 2, 3, 4], [3, 2, 1, 0], [7, 7, 7, 7], ["rid", "y", "s", "f2"], [4, 4, 4, 4], [-1, -2, -3, -4],
+                   [0, 1, 2, 3]):
+        H("label-edges", labels, [0, 1, 2, 0],
+          [{"o": "split", "p": 0}, {"o": "shuffle", "p": 0, "ret": True, "form": "kw_true", "tseed": 3},
+           {"o": "split", "p": 4}, sel(L([3, 0]), p=4), {"o": "get_split", "p": 8, "name": "train"}, sel(I(-1), p=0)],
+          target=True, default_index=labels == [0, 1, 2, 3])
+    H("repeat-same-op", [2, 0, 1], [0, 1, 0],
+      [{"o": "mat", "p": 0, "form": "device_none_kw"}, {"o": "split", "p": 0}, {"o": "split", "p": 0},
+       {"o": "get_split", "p": 0, "name": "train"}, {"o": "get_split", "p": 0, "name": "train"},
+       {"o": "mat", "p": 1, "form": "plain"}, {"o": "mat", "p": 2, "form": "plain"},
+       {"o": "mat", "p": 1, "form": "cache_save"}, {"o": "sel", "p": 1, "via": "getitem", "idx": {"t": "list", "l": [1, 1]}},
+       {"o": "sel", "p": 2, "via": "getitem", "idx": {"t": "list", "l": [1, 1]}}],
+      target=True, pre=[{"o": "col_select", "p": 0, "via": "method", "cols": ["rid"]},
+                        {"o": "col_select", "p": 0, "via": "method", "cols": ["rid"]}])
+    # (in repeat-same-op the root is materialized first by H's own "mat" step, then again, then the two col_select twins)
+    for n in (0, 1):
+        pre = [{"o": "read_tf", "p": 0}, {"o": "read_stats", "p": 0}, {"o": "read_conv", "p": 0}, sel(L([])),
+               sel(S(None, None), via="index_select_kw"), {"o": "shuffle", "p": 0, "ret": True, "form": "kw_true", "tseed": 1},
+               {"o": "get_split", "p": 0, "name": "train"}, {"o": "split", "p": 0}, F(None, 0.5)]
+        H("gates-on-small", list(range(n)), [0] * n,
+          [{"o": "col_select", "p": 0, "via": v, "cols": ["rid"]} for v in
+           ("method", "method_kw", "method_str", "getitem", "getitem_str")] + [{"o": "read_tf", "p": 0},
+                                                                              {"o": "read_conv", "p": 0}],
+          target=True, pre=pre)
+    H("max-size", list(range(11, -1, -1)), [i % 3 for i in range(12)],
+      [{"o": "shuffle", "p": 0, "ret": True, "form": "kw_true", "tseed": 9}, sel(S(1, None, 1), p=1),
+       F(0.25, 0.75, p=2), sel(L([4, 0, 0, -1], "tensor"), p=3), {"o": "split", "p": 4}, {"o": "split", "p": 2},
+       sel(Rg(11, -1, -1), p=0), {"o": "get_split", "p": 11, "name": "val"}], target=True)
+
+    pts = []
+
+    def P(b, n, tr, vr, it, seed=7, form="kw"):
+        pts.append({"b": b, "n": n, "tr": fhex(tr), "vr": fhex(vr), "include_test": it, "form": form, "np": False,
+                    "seed": seed, "prior": 11 * len(pts) + 3})
+
+    tiny, below1 = 5e-324, math.nextafter(1.0, 0.0)
+    for n in (0, 1, 2):
+        for tr, vr, it in ((0.8, 0.1, True), (0.5, 0.25, True), (1 / 3, 1 / 3, True), (0.5, 0.5, False), (0.6, 0.4, False),
+                           (0.29, 0.7, True)):
+            P("gen-n-small", n, tr, vr, it, form="defaults" if (tr, vr, it) == (0.8, 0.1, True) else "pos")
+    for tr, vr in ((0.6, 0.4), (0.7, 0.3), (0.5, 0.5), (0.1, 0.9), (1.0, tiny), (0.29, 0.71)):
+        for it in (True, False):
+            P("gen-sum-one", 10, tr, vr, it)
+    for vr in (half_dn, half_up, math.nextafter(half_dn, 0.0)):
+        for it in (True, False):
+            P("gen-sum-ulp", 9, 0.5, vr, it)
+            P("gen-sum-ulp", 9, vr, 0.5, it, form="mixed")
+    for n, tr in ((10, 0.5), (100, 0.29), (10, 0.7), (3, 0.1), (3, 1 / 3), (6, 1 / 3), (20, 0.15), (7, 1 / 7), (49, 1 / 49),
+                  (1000, 0.001)):
+        P("gen-product-edge", n, tr, 0.05, True)
+        P("gen-product-edge", n, 0.05, tr, True, form="pos")
+        P("gen-product-edge", n, tr, 1.0 - tr, False)
+    for n, tr, vr in ((10, 0.1, 0.8999999999999999), (6, 1 / 6, 0.8333333333333333), (9, 0.1, 0.8999999999999999)):
+        P("gen-empty-test-block", n, tr, vr, True)
+        P("gen-empty-test-block", n, vr, tr, True)
+    for tr, vr in ((tiny, tiny), (tiny, 0.5), (below1, tiny), (0.5, below1), (0.0, 0.5), (-0.0, 0.5), (0.5, -tiny),
+                   (0.5, 0.0), (1.0, 0.5)):
+        for it in (True, False):
+            P("gen-ratio-extremes", 5, tr, vr, it)
+    for seed in (0, 2 ** 32 - 1, 0):
+        P("gen-seed-edges", 8, 0.5, 0.25, True, seed=seed)
+        P("gen-seed-edges", 8, 0.5, 0.5, False, seed=seed, form="mixed")
+    out += [{"k": "gen", "b": "gen", "pts": pts[i:i + BATCH]} for i in range(0, len(pts), BATCH)]
+    return out
+
+
 BATCH = 10     # split-generator points per case (keeps the number of Coq case ids small)
 
 
 def generate(rng, tier):
     nh, ng, batch = (800, 2200, BATCH) if tier == "quick" else (12000, 60000, 5 * BATCH)
-    cases = [gen_hist(rng, tier) for _ in range(nh)]
+    cases = boundary_cases() + [gen_hist(rng, tier) for _ in range(nh)]
     pts = gen_split_grid(rng) + [gen_split_case(rng) for _ in range(ng)]
     cases += [{"k": "gen", "pts": pts[i:i + batch]} for i in range(0, len(pts), batch)]
     if tier == "thorough":
@@ -1034,7 +1220,7 @@ def stats(cases, obss):
          "steps_total": 0, "cases_with_empty_result": 0, "cases_with_empty_split": 0, "tree_shaped": 0,
          "with_pre_phase": 0, "gen_rejected": 0, "gen_no_test": 0, "gen_floor_differs_from_exact": 0,
          "col_stats_aliasing_seen": 0, "repeated_column_requests": 0, "float_cut_differs_from_int": 0,
-         "forms": {}}       # how often each parameter form / entry point was drawn
+         "boundaries": {}, "forms": {}}       # how often each parameter form / entry point was drawn
 
     def form(k):
         d["forms"][k] = d["forms"].get(k, 0) + 1
@@ -1045,6 +1231,8 @@ def stats(cases, obss):
         if c["k"] == "gen":
             for pt, po in zip(c["pts"], o.get("pts", [])):
                 d["gen"] += 1
+                if pt.get("b"):
+                    d["boundaries"][pt["b"]] = d["boundaries"].get(pt["b"], 0) + 1
                 form("generate_random_split:" + pt.get("form", "kw"))
                 if pt.get("np"):
                     form("generate_random_split:numpy-scalars")
@@ -1055,6 +1243,8 @@ def stats(cases, obss):
                     d["gen_floor_differs_from_exact"] += 1
             continue
         d["hist"] += 1
+        if c.get("b"):
+            d["boundaries"][c["b"]] = d["boundaries"].get(c["b"], 0) + 1
         form("split-column-dtype:" + c.get("sdtype", "int64"))
         form("index:pandas-RangeIndex" if c.get("default_index") else "index:explicit")
         d["label_kinds"][c["lkind"]] = d["label_kinds"].get(c["lkind"], 0) + 1
@@ -1151,6 +1341,9 @@ def sanity(cases, obss):
     for k in need:
         if d["forms"].get(k, 0) == 0:
             probs.append(f"parameter form / entry point {k} never drawn")
+    for b in REQUIRED_BOUNDARIES:
+        if d["boundaries"].get(b, 0) == 0:
+            probs.append(f"boundary stream {b} missing")
     if d["ops"].get("read_conv", 0) == 0:
         probs.append("operation read_conv never drawn")
     if 0 not in d["n_rows"] or max(d["n_rows"]) < 8:
